@@ -46,3 +46,15 @@ register("C08", "exploration",
          "Generated include trees (nested directories, repeated and conditional includes with #else, #error, #define before/after use, random trivia, absolute/relative main path) are read with Topology.from_gmx_topfile and compared with the reading of the single file produced by an independent flattener; molecule list expansion, instance independence and the #error verdict are checked against the spec.",
          "flattener R2 in pbt/c08.py; one-level conditionals, defines outside conditionals, includes between whole blocks; known finding F13 excluded by construction in 7/8 of the draws",
          "Hypothesis-generated inputs + differential oracle against an independent flattener", "DESIGN.md 4/C08")
+register("C03", "exploration",
+         "Generated topologies x option sets (-box/-dens/-c/-mc/-grid/-gs/-sf/-mf/-nr/-start/-res) x RNG seeds through gen_coords; the written .gro is parsed independently: atom count and per-line residue number/name/atom name equal the expansion of [molecules], all coordinates finite, box line = structure box > -box > cubic density box.",
+         "independent .gro reader; dilute boxes; time-outs (30 s per case) are inconclusive, never violations",
+         "Hypothesis-generated inputs + reference expansion oracle", "DESIGN.md 4/C03")
+register("C04", "exploration",
+         "C03 systems with a supplied prefix of the residue stream (-c atoms or -mc centres), -res, -ign and injected placement failures: supplied atoms must keep their coordinates (file and captured topology), centre-only residues must be backmapped around the supplied centre, exactly the residues absent from the input may receive an engine placement, supplied engine rows must be intact after every injected failure.",
+         "-res residues are absent from the input structure; ignored types fully supplied; tolerance 5e-4 nm on the 3-decimal file, 1e-9 on captured positions",
+         "Hypothesis-generated inputs and fault patterns + preservation oracle", "DESIGN.md 4/C04")
+register("C05", "exploration",
+         "Every NonBondEngine.add_positions call made during gen_coords is intercepted and judged against the engine state at that moment with an independent minimum-image model: inside the box, one step (step factor x mean size) from an already positioned graph neighbour or on a start-grid point, nothing within 0.1 nm, brute-force soft-sphere force from non-neighbours within the cut-off not above the limit.",
+         "sizes taken from the captured Topology.volumes; boxes >= 3 nm; time-outs inconclusive",
+         "Hypothesis-generated inputs + interposed history invariant with reference force model", "DESIGN.md 4/C05")
